@@ -457,9 +457,17 @@ Step(s, e) ==
        c08 == IF ~framed THEN {}
               ELSE Tag("C08.frame_fat", \A k \in changedFat : k \notin DOMAIN fatPre.m \/ k \in {ToString(c) : c \in okClusters})
                    \cup Tag("C08.frame_slots",
+                        \* a slot that existed before the call may differ afterwards only if it was free (deleted) or belongs to the run
+                        \* of an entry the call may change (the targets and, for their stamps, the directories above them):
+                        \* volume labels, orphaned runs and every other entry stay byte-identical
                         \A a \in 1..Len(s.raw.dirs) : \A b \in 1..Len(post.dirs) :
-                           (s.raw.dirs[a].id = post.dirs[b].id /\ s.D.paths[a] \notin allowed /\ Dp.paths[b] \notin allowed)
-                           => [i \in 1..Len(s.raw.dirs[a].sl) |-> s.raw.dirs[a].sl[i].x] = [i \in 1..Len(post.dirs[b].sl) |-> post.dirs[b].sl[i].x])
+                           s.raw.dirs[a].id = post.dirs[b].id =>
+                              \A i \in 1..Len(s.raw.dirs[a].sl) :
+                                 LET old == s.raw.dirs[a].sl[i] IN
+                                 \/ (i <= Len(post.dirs[b].sl) /\ post.dirs[b].sl[i].x = old.x)
+                                 \/ old.t = "D"
+                                 \/ \E r \in 1..Len(s.D.rows) : s.D.rows[r].dk = a /\ s.D.rows[r].e.first <= i /\ i <= s.D.rows[r].e.i
+                                                                /\ s.D.rows[r].p \in allowed)
                    \cup Tag("C08.frame_bad", fatPre.bad = fatPost.bad)
        c11o == Tag("C11.owner", \A i \in 1..Len(e.w) : e.w[i].r = "clu" =>
                        (IsFreeC(s.D.F, e.w[i].c) \/ e.w[i].c \in okClusters \/ ~InRangeC(s.D.F, e.w[i].c)))
